@@ -19,7 +19,7 @@ DATA_ENDPOINTS = {'dropbox': 'upload-append', 'yandex': 'upload-put', 'google': 
 RENAME = {'dropbox': 'move', 'yandex': 'move', 'google': 'patch'}
 # the replies that carry the provider's checksum of what it received
 CHECKSUM_REPLY = {'dropbox': 'upload-finish', 'yandex': 'stat', 'google': 'get-file'}
-FAULT_KINDS = ['status', 'text', 'badjson', 'noheader', 'reset-before', 'reset-inside', 'corrupt', 'rename-fail']
+FAULT_KINDS = ['status', 'text', 'emptytext', 'badjson', 'noheader', 'reset-before', 'reset-inside', 'corrupt', 'rename-fail']
 
 
 def payload(seed, index, size):
@@ -33,7 +33,7 @@ def payload(seed, index, size):
 
 def model_resp(provider, endpoint, kind):
     """What a fault of `kind` on a request of class `endpoint` is in the model's alphabet."""
-    if kind in ('status', 'text', 'reset-before', 'reset-inside'):
+    if kind in ('status', 'text', 'emptytext', 'reset-before', 'reset-inside'):
         return 'reject'
     if kind == 'rename-fail':
         return 'reject' if endpoint == RENAME[provider] else 'ok'
@@ -113,6 +113,8 @@ def run_upfile(ctx, stage, provider, sizes, seed, ending, max_request_size, faul
         rule = {'fault': kind, 'match': {'seq': seq}}
         if kind == 'reset-inside':
             rule['after_bytes'] = 7
+        if kind == 'emptytext':      # an error status with Content-Type text/plain and no body at all (a bare 503 of a front end)
+            rule = {'fault': 'text', 'body': '', 'match': {'seq': seq}}
         rules.append(rule)
     stage.emu.set_script(rules)
     arg = {'provider': provider, 'dir': GROUP_DIR, 'tmp': TMP, 'name': NAME, 'payloads': sizes, 'seed': seed,
